@@ -301,6 +301,13 @@ func runKillCase(t fataler, vh, script string, nLeaves int, killTimeout time.Dur
 		tCancel = time.Now()
 		killMarker(m3)
 	default:
+		if mode == "ctxdone" {
+			// the context the runner was created with has ended (as in the program once the first signal came):
+			// a cancel is served all the same
+			w.cancel()
+			time.Sleep(2 * time.Millisecond)
+			tCancel = time.Now()
+		}
 		if err := w.pr.CancelJob(job.ID); err != nil {
 			t.Fatalf("cancel: %v", err)
 		}
@@ -342,7 +349,7 @@ const lingerAllowance = 250 * time.Millisecond
 
 // TestC20: canceling a job leaves no process of its tasks behind.
 func TestC20(t *testing.T) {
-	col := ev.Get("C20", "trees", "process trees from a grammar over 'vhelper hang' (leaf | sh -c with foreground/background children | pipeline | subshell | interpreter-level background command | a command that returns at once and leaves detached children behind, followed by another; leaves may ignore the interrupt and/or redirect their output away from the task's pipe; depth <= 4), run as a task of a real job next to a bystander job; kill timeout 450-700 ms (1.0-1.6 s in a fifth of the cases, none at all - the group is killed at once - in an eighth); cancel (or forced shutdown, then with two jobs of the pipeline running the same tree; or the failure of a second task of the job, so that fail-fast stops the tree) at a generated instant, also before the whole tree is up; oracle from /proc after the job is reported finished: no non-zombie process carrying the job's marker is alive (250 ms allowance), report - cancel <= kill timeout + 1.5 s, the bystander's processes are all alive; shapes of the two recorded findings are excluded by construction (counted) and exercised separately; non-trivial = depth >= 2 or a background/pipeline/ignore-int element; distinct by tree shape x cancel phase")
+	col := ev.Get("C20", "trees", "process trees from a grammar over 'vhelper hang' (leaf | sh -c with foreground/background children | pipeline | subshell | interpreter-level background command | a command that returns at once and leaves detached children behind, followed by another; leaves may ignore the interrupt and/or redirect their output away from the task's pipe; depth <= 4), run as a task of a real job next to a bystander job; kill timeout 450-700 ms (1.0-1.6 s in a fifth of the cases, none at all - the group is killed at once - in an eighth); cancel (or forced shutdown, then with two jobs of the pipeline running the same tree; or the failure of a second task of the job, so that fail-fast stops the tree; or a cancel after the context the runner was created with has ended) at a generated instant, also before the whole tree is up; oracle from /proc after the job is reported finished: no non-zombie process carrying the job's marker is alive (250 ms allowance), report - cancel <= kill timeout + 1.5 s, the bystander's processes are all alive; shapes of the two recorded findings are excluded by construction (counted) and exercised separately; non-trivial = depth >= 2 or a background/pipeline/ignore-int element; distinct by tree shape x cancel phase")
 	vh := helper(t)
 	// the two recorded findings, exercised deterministically
 	for _, kf := range knownFindings(vh) {
@@ -440,7 +447,7 @@ func TestC20(t *testing.T) {
 			}
 		}
 		cancelAfter := time.Duration(rapid.IntRange(0, 120).Draw(rt, "cancelAfterMs")) * time.Millisecond
-		mode := rapid.SampledFrom([]string{"cancel", "cancel", "cancel", "shutdown", "failfast"}).Draw(rt, "mode")
+		mode := rapid.SampledFrom([]string{"cancel", "cancel", "cancel", "shutdown", "failfast", "ctxdone"}).Draw(rt, "mode")
 		viaShutdown := mode == "shutdown"
 		canary := time.Now()
 		res := runKillCase(rt, vh, script, len(leaves), killTimeout, cancelAfter, !early, mode)
@@ -474,7 +481,7 @@ func TestC20(t *testing.T) {
 		if early {
 			phase = fmt.Sprintf("early(%d/%d up)", res.readyBefore, len(leaves))
 		}
-		col.Add(shape+"|"+phase+fmt.Sprint(viaShutdown), nontrivial, map[string]int{"depth>=2": btoi(root.depth() >= 2), "depth>=3": btoi(root.depth() >= 3), "ignore-int-leaf": btoi(anyIgnore), "interrupt-survivor-holding-pipe": btoi(anySurvive), "cancel-before-tree-up": btoi(early && res.readyBefore < len(leaves)), "forced-shutdown": btoi(viaShutdown), "stopped-by-fail-fast": btoi(mode == "failfast"),
+		col.Add(shape+"|"+phase+fmt.Sprint(viaShutdown), nontrivial, map[string]int{"depth>=2": btoi(root.depth() >= 2), "depth>=3": btoi(root.depth() >= 3), "ignore-int-leaf": btoi(anyIgnore), "interrupt-survivor-holding-pipe": btoi(anySurvive), "cancel-before-tree-up": btoi(early && res.readyBefore < len(leaves)), "forced-shutdown": btoi(viaShutdown), "stopped-by-fail-fast": btoi(mode == "failfast"), "cancel-after-runner-context-ended": btoi(mode == "ctxdone"),
 			"kind:sh": btoi(strings.Contains(shape, "sh(")), "kind:pipe": btoi(strings.Contains(shape, "pipe(")), "kind:bg": btoi(strings.Contains(shape, "bg(")), "kind:sub": btoi(strings.Contains(shape, "sub(")), "kind:seq(leader-gone)": btoi(strings.Contains(shape, "seq("))}, len(leaves),
 			map[string]interface{}{"tree": shape, "script": script, "kill_timeout_ms": killTimeout.Milliseconds(), "cancel": phase, "forced_shutdown": viaShutdown, "report_after_ms": res.reportAfter.Milliseconds()})
 	})
